@@ -260,22 +260,22 @@ theorem RecvFacts.get {w w' : World} {o : Nat} {s : ChanSt} {v : Int} {sy : Sync
 /-! ### stage 0 of `recv` and `try_recv` -/
 
 /-- the thread table `branch` hands to `Execution::schedule` -/
-def branchThreads (w : World) (obj : Nat) (act : Action) (block : Bool) : Threads :=
+def branchThreads (w : World) (obj : Nat) (act : Action) (block : Bool) (wait : Bool := false) : Threads :=
   w.ths.modifyActive fun t =>
-    let t := { t with operation := some ⟨obj, act⟩ }
+    let t := { t with operation := some ⟨obj, act, wait⟩ }
     if block then t.setBlocked else t
 
-theorem branch_eq (w : World) (obj : Nat) (act : Action) (block : Bool) :
-    w.branch obj act block =
-      (({ w.exec with threads := branchThreads w obj act block }).schedule w.panicking >>=
+theorem branch_eq (w : World) (obj : Nat) (act : Action) (block wait : Bool) :
+    w.branch obj act block wait =
+      (({ w.exec with threads := branchThreads w obj act block wait }).schedule w.panicking >>=
         fun r => pure { w with exec := r.1 }) := rfl
 
-/-- in the table handed to the scheduler the active thread carries the operation, and is
-`Blocked` iff `block` was requested (it was runnable before) -/
-theorem branchThreads_active (w : World) (obj : Nat) (act : Action) (block : Bool)
+/-- in the table handed to the scheduler the active thread carries the operation (with its `blocking` flag
+`wait`), and is `Blocked` iff `block` was requested (it was runnable before) -/
+theorem branchThreads_active (w : World) (obj : Nat) (act : Action) (block wait : Bool)
     (hact : ActiveOk w.ths) :
-    (branchThreads w obj act block).activeT.operation = some ⟨obj, act⟩ ∧
-    (branchThreads w obj act block).activeT.state =
+    (branchThreads w obj act block wait).activeT.operation = some ⟨obj, act, wait⟩ ∧
+    (branchThreads w obj act block wait).activeT.state =
       if block then .blocked else w.ths.activeT.state := by
   unfold ActiveOk at hact
   simp only [branchThreads, Threads.modifyActive, Threads.activeT, activeId_modify, get_modify,
@@ -283,16 +283,16 @@ theorem branchThreads_active (w : World) (obj : Nat) (act : Action) (block : Boo
   cases block <;> simp [Thread.setBlocked]
 
 /-- … and no other thread is changed -/
-theorem branchThreads_other (w : World) (obj : Nat) (act : Action) (block : Bool) (i : Nat)
+theorem branchThreads_other (w : World) (obj : Nat) (act : Action) (block wait : Bool) (i : Nat)
     (hi : i ≠ w.ths.activeId) :
-    (branchThreads w obj act block).get i = w.ths.get i := by
+    (branchThreads w obj act block wait).get i = w.ths.get i := by
   simp only [branchThreads, Threads.modifyActive, get_modify]
   rw [if_neg]; omega
 
 theorem runOp_recv_stage0 (w : World) (c : TCtl) (qi : Nat) (s : ChanSt) (hc : c.stage = 0)
     (h : w.getChan (w.chanObj qi) = .ok s) :
     w.runOp c (.recv qi) =
-      (w.setStage 1).branch (w.chanObj qi) .chanRecv (block := s.msgCnt == 0) := by
+      (w.setStage 1).branch (w.chanObj qi) .chanRecv (block := s.msgCnt == 0) (wait := true) := by
   simp [World.runOp, hc, h]
 
 theorem runOp_recv_stage1 (w : World) (c : TCtl) (qi : Nat) (hc : c.stage ≠ 0) :
@@ -305,12 +305,17 @@ theorem runOp_tryRecv_stage0_empty (w : World) (c : TCtl) (qi : Nat) (s : ChanSt
     w.runOp c (.tryRecv qi) = .ok (w.complete .empty) := by
   simp [World.runOp, hc, h, h0]
 
+/-- stage 0 of `try_recv` on a non-empty channel: the branch point of `recv` — but as an ATTEMPT
+(`blocking = false`), whereas `recv` itself waits (`blocking = true`); neither blocks here -/
 theorem runOp_tryRecv_stage0_nonempty (w : World) (c : TCtl) (qi : Nat) (s : ChanSt)
     (hc : c.stage = 0) (h : w.getChan (w.chanObj qi) = .ok s) (h0 : s.msgCnt ≠ 0) :
-    w.runOp c (.tryRecv qi) = w.runOp c (.recv qi) := by
+    w.runOp c (.tryRecv qi) = (w.setStage 1).branch (w.chanObj qi) .chanRecv ∧
+    w.runOp c (.recv qi) =
+      (w.setStage 1).branch (w.chanObj qi) .chanRecv (block := false) (wait := true) := by
   have : (s.msgCnt == 0) = false := by simp [h0]
-  simp [World.runOp, hc, h, h0]
-  rw [this]
+  constructor
+  · simp [World.runOp, hc, h, h0]
+  · simp [World.runOp, hc, h, this]
 
 theorem runOp_tryRecv_stage1 (w : World) (c : TCtl) (qi : Nat) (hc : c.stage ≠ 0) :
     w.runOp c (.tryRecv qi) = w.runOp c (.recv qi) := by
